@@ -282,10 +282,13 @@ ObsQuiescent(h, qs, single) ==
       \* C04: no sync caller is left blocked (no proviso on the pool: the caller runs the queue itself)
       h3 == Viol(h2, \E a \in Ops : K(a) \in {"sync", "drop_obj"} /\ a \in h.called /\ h.rets[a] = NoRet /\ ~StuckObj(h, O(a))
                                     /\ (OpTab[a].par = 0 \/ ~StuckObj(h, O(OpTab[a].par))) /\ h.panicked = {}, "C04:sync-blocked")
+      \* C05: in particular the drop of the last owner returns
+      h3b == Viol(h3, \E a \in Ops : K(a) = "drop_obj" /\ a \in h.called /\ h.rets[a] = NoRet /\ ~StuckObj(h, O(a))
+                                     /\ (OpTab[a].par = 0 \/ ~StuckObj(h, O(OpTab[a].par))) /\ h.panicked = {}, "C05:drop-blocked")
       \* C07/C08/C13: an awaited future has resolved (pool thread available, or no pool and a single context)
       awaited(f) == f \in h.polled /\ \E w \in Ops : w \in h.called /\ h.rets[w] = NoRet /\
                         ((K(w) \in {"await", "wait_sync"} /\ OpTab[w].f = f) \/ (w = f /\ OpTab[w].then \in {"await", "sync"}))
-      h4 == Viol(h3, (PoolAvailable(h) \/ single) /\ h.panicked = {} /\ \E f \in Ops : awaited(f) /\ h.res[f] = 0 /\ ~StuckObj(h, O(f)),
+      h4 == Viol(h3b, (PoolAvailable(h) \/ single) /\ h.panicked = {} /\ \E f \in Ops : awaited(f) /\ h.res[f] = 0 /\ ~StuckObj(h, O(f)),
                  "C07:await-stuck")
       \* pipes
       pstuck(p) == StuckObj(h, PObj(p)) \/ (OpTab[PipeOp(p)].g # 0 /\ OpTab[PipeOp(p)].g \notin h.fired /\ h.pproc[p] > h.pfin[p])
